@@ -74,6 +74,7 @@ var targetKinds = []targetKind{
 	17: {"truncated-v4", "", 91, "", false},
 	18: {"truncated-domain", "", 92, "", false},
 	19: {"type-0", "", 93, "", false},
+	20: {"no-address-at-all", "", 94, "", false}, // with an empty payload: an authenticated datagram whose plaintext is empty
 }
 
 // malformedKind: the address never denotes a destination (bad type, truncated, unresolvable)
@@ -98,6 +99,8 @@ func socksAddrBytes(kind, port int) []byte {
 		return []byte{3, 200, 97, 98}
 	case 93:
 		return []byte{0, 1, 2, 3, 4, 5, 6}
+	case 94:
+		return []byte{}
 	}
 	return []byte{9, 1, 2, 3, 4, 5, 6}
 }
